@@ -66,7 +66,9 @@ func vCondParked(c *sync.Cond) int {
 // /verif/engine/main.go). They behave exactly like the embedded mutex and additionally keep
 // the list of ranks held by the harness goroutine: taking a lock while holding one of the
 // same or a higher rank is an acquisition against the hierarchy
-//     Stream.writeLock (0)  <  Association.lock (1)  <  Stream.lock (2)
+//
+//	Stream.writeLock (0)  <  Association.lock (1)  <  Stream.lock (2)
+//
 // and, with another goroutine acquiring in hierarchy order, a deadlock.
 var (
 	vHeldRanks []int
